@@ -182,6 +182,29 @@ CHECKS = {
              "Any exception counts as a refusal. Known finding: duplicate names are not refused (6 keys).",
         technique="TLA+ blueprint-document and lattice-map specs + TLC; every TLC document built by armi and compared with the spec's expected reactor; TLC validation of writer outputs",
     ),
+    "C13": dict(
+        text="SymmetryConversion.tla (EXTENDS the C08 lattice modules for images and symmetry lines) models the core as cell -> [number, original, copy kind, parameter scale] "
+             "with the three lookup tables and the changers' memory; Convert / Restore / AddEdges / RemoveEdges and their no-op and refusal branches are actions; "
+             "OrbitClosure, CopiesRotatedIntoPlace, UniqueNames, LookupsTruthful, TimesThree (totals as exact rational linear forms over the originals), "
+             "RestoreReturnsPrevious, EdgesRoundTrip are invariants checked by TLC over all 255 loading patterns of a 3-ring third core. The emitted graph is walked "
+             "through the real ThirdCoreHexToFullCoreChanger / EdgeAssemblyChanger on generated cores (cells, rotation, symmetry factor, masses, parameter scales, all "
+             "lookups, totals at rtol 1e-9), and random call histories on 5-ring patterns are validated by TLC.",
+        design="3/C13 and 9",
+        note="Trusted: TLC, harness/gen_core.py cores, C08's geometric rotation operators. Interpretation I2: convert and removeEdgeAssemblies purge the 120-degree line for good, "
+             "so round trips return the edge-free model (the literal reading is refuted by TLC and reported as a note).",
+        technique="TLA+ symmetry-conversion spec (exact rational totals) + TLC; graph walk through the real geometry changers; TLC trace validation of call histories",
+    ),
+    "C19": dict(
+        text="NuclideIds.tla states the identifier encodings (name, label, database name, MCNP, AAAZZZS, MC2-3 pattern) from an independently written periodic table with "
+             "injectivity / decoding laws; NuclideDirectory.tla states the statement's clauses as failure-set operators; NuclideFactory.tla is a state machine of the "
+             "module-level registration / refusal / relabelling / destruction paths with the clauses as invariants; NuclideTable.tla and MaterialTable.tla validate, with "
+             "TLC, the live directory (4 716 rows, nine indices, 120 elements, burn chain) and the material library (58 classes, densities and expansion sampled over every "
+             "stated range) exported at every run. Encoder cases and factory edges are replayed on the real constructors.",
+        design="3/C19 and 9",
+        note="Trusted: TLC, the export of the live tables (quantised to ppb), tolerances 1e-4 (abundances, armi's own) and 1e-5 (mass fractions). The material oracle is status and "
+             "sign only. Three known findings (DUMP1/DUMP2 MC2-3 id, Sulfur sum, Uranium pseudoDensity).",
+        technique="TLA+ identifier-encoding / directory / factory specs + TLC evaluated over the exported live nuclide and material tables; encoder and factory edges replayed on real code",
+    ),
 }
 
 NOT_YET = "no specification-bound check has been built for this property yet in this session (planned, see DESIGN.md section 3)"
